@@ -68,37 +68,46 @@ def grid_obligations(prefix):
 
 @isolated('binning')
 def binning_obligations(prefix):
-    """add_parts: the cell index computed for a particle is the cell that contains it (given the tiling above)."""
+    """add_parts: the cell index computed for a particle is the cell that contains it (given the tiling above). The per-particle closure is
+    run (helpers it calls are inlined) up to its call of get_cid: the (i, j, k) handed to get_cid are what is under contract, however they
+    are computed."""
     u = Unit(SP, "Space::add_parts")
-    cls = extract.find_nodes(u.fn["body"], lambda n: n.get("k") == "closure")
-    if not cls: raise extract.Undecided("lost anchor: the map closure of add_parts")
+    cls = [c for c in extract.find_nodes(u.fn["body"], lambda n: n.get("k") == "closure") if len(c["params"]) == 1 and c["params"][0].get("k") == "ptuple"]
+    if not cls: raise extract.Undecided("lost anchor: the per-particle map closure of add_parts")
     cl = cls[0]
-    lets = {nm: extract.find_nodes(cl["body"], lambda n, nm=nm: n.get("k") == "let" and n["pat"].get("name") == nm) for nm in ("rel_pos", "i", "j", "k")}
-    if any(len(v) != 1 for v in lets.values()): raise extract.Undecided("lost anchor: let rel_pos / i / j / k in add_parts")
     A, W = vec("anchor"), vec("width")
     cd = Vec([Var("cdim_%s" % a, "Int", "u32") for a in "xyz"])
     px = vec("p_x")
     sp = Struct("Space", {"anchor": A, "width": W, "cdim": cd})
     ctx = symex.Ctx(); ctx.resolver = u.resolver(XF)
-    it = symex.Interp(ctx, {})
-    env = symex.Env(ctx, {"self": sp, "p_x": px, "pid": Var("pid", "Int", "usize")}, TRUE, "Space")
-    body = cl["body"]
-    stmts = [s_ for s_ in body["stmts"] if s_["sp"][1] <= lets["k"][0]["sp"][1]]
-    it.exec_block(env, {"k": "block", "stmts": stmts, "sp": [stmts[0]["sp"][0], stmts[-1]["sp"][1]]})
-    idx = [env.vars[nm] for nm in ("i", "j", "k")]
+    box = {}
+    def hook(interp, env, node, args):
+        box["args"] = list(args); box["pc"] = env.pc
+        raise symex.StopExecution("get_cid")
+    ctx.contracts["Space::get_cid"] = hook
+    it = symex.Interp(ctx, {}); it.tolerant = True
+    env = symex.Env(ctx, {"self": sp}, TRUE, "Space")
+    try:
+        it.call_closure(env, symex.Closure(cl, env), [symex.Tup([Var("pid", "Int", "usize"), px])])
+    except symex.StopExecution:
+        pass
+    if "args" not in box or len(box["args"]) < 4: raise extract.Undecided("lost anchor: add_parts no longer hands (i, j, k) to get_cid")
+    idx = box["args"][-3:]
+    if any(not (isinstance(x, tm.T) and x.sort == "Int") for x in idx): raise extract.Undecided("add_parts: the cell index handed to get_cid is not an integer")
     pre = [Gt(w, R0) for w in W.c] + [Gt(c, I0) for c in cd.c]
-    P = pre + ctx.assume + ctx.ok      # ctx.ok carries the function's own assert!: the particle lies in the half-open box
-    lab = u.label + " / map closure up to `let k`"
+    P = pre + ctx.assume + ctx.ok + [box["pc"]]      # ctx.ok carries the function's own assert!: the particle lies in the half-open box
+    lab = u.label + " / per-particle closure up to the call of get_cid"
     obs = [Obligation(prefix + ".binning.requires_satisfiable", P, TRUE, lab, expect_sat=True)]
     goals = []
     for a in range(3):
         cwa = W.c[a] / tm.ToReal(cd.c[a])
         rel = px.c[a] - A.c[a]
-        ia = idx[a] if idx[a].sort == "Int" else None
-        if ia is None: raise extract.Undecided("add_parts: cell index is not an integer")
+        ia = idx[a]
         goals.append(And(Le(I0, ia), Lt(ia, cd.c[a]), Le(tm.ToReal(ia) * cwa, rel), Lt(rel, (tm.ToReal(ia) + Const(1, "Real")) * cwa)))
-    obs.append(Obligation(prefix + ".binning.particle_is_binned_into_the_cell_that_contains_it", P, And(*goals), lab,
-                          note="over the reals; cell (i,j,k) spans [anchor + (i,j,k) * width/cdim, + width/cdim] by the grid obligations"))
+    o = Obligation(prefix + ".binning.particle_is_binned_into_the_cell_that_contains_it", P, And(*goals), lab,
+                   note="over the reals; cell (i,j,k) spans [anchor + (i,j,k) * width/cdim, + width/cdim] by the grid obligations")
+    o.havoc = has_havoc(idx)
+    obs.append(o)
     return obs, [{"fn": lab, "slice_sha": extract.sha(extract.text_of(u.tree, cl))}]
 
 
